@@ -31,8 +31,8 @@ FOREIGN = 5                      # another device's address
 def configs(tier):
     if tier == "quick":
         return [dict(mps=2, gap=1, ready=1),
-                dict(mps=3, gap=2, ready=2, depth=7),
-                dict(mps=4, gap=1, ready=1, masks="sparse", depth=6),
+                dict(mps=3, gap=2, ready=2, depth=8),
+                dict(mps=4, gap=1, ready=1, masks="sparse", depth=7),
                 dict(mps=1, gap=3, ready=3),
                 dict(mps=2, gap=2, ready=1, distract=1, masks="sparse", depth=5)]
     return [dict(mps=2, gap=1, ready=1),
@@ -55,7 +55,7 @@ class IsoInSpec(Spec):
         self.mps = cfg["mps"]
         self.nmax = 3 * self.mps
         self.distract = bool(cfg.get("distract"))
-        self.time_budget = 60 if tier == "quick" else 850
+        self.time_budget = 240 if tier == "quick" else 850      # wall-clock safety net only; bounds are set by depth / fixed point
         if cfg.get("depth"): self.max_depth = cfg["depth"]
         self.host = Host(gap=cfg["gap"], pace=cfg.get("pace", 1), ready_period=cfg["ready"])
         self.frames = (0x2A5, 0x15A)[:cfg.get("frames", 1)]
